@@ -277,6 +277,8 @@ class Types:
             ptr += ' *'
         m = re.match(r'^(.*)\(\*\)\((.*)\)$', t)
         if m:
+            if t in self.map:    # a group may name one function pointer type (typedef in its types.h)
+                return (self.map[t] + ptr, arr, is_ref)
             raise ExtractionError('function pointer type outside the subset: %r' % t)
         return (self.base(t) + ptr, arr, is_ref)
 
@@ -1106,6 +1108,18 @@ class Emitter:
             self.fire('E12_variadic')
             name = '%s_%d' % (name, len(rest))
             return self.finish_call(n, ctx, '%s(%s)' % (name, ', '.join(al)), name, stmt)
+        if ref.get('kind') == 'ParmVarDecl' and name in self.cfg.get('fnptr_targets', {}):
+            # E15: call through a function pointer parameter -> explicit dispatch over the functions the group lists
+            # as its possible targets (CBMC's own pointer removal is not usable under --dfcc); a pointer outside
+            # the list is an obligation.  Arguments must be side-effect free (they are duplicated).
+            tg = self.cfg['fnptr_targets'][name]
+            c2 = Ctx(False)
+            al = [self.arg(a, c2) for a in args]
+            self.fire('E15_fnptr_dispatch')
+            e = '(__CPROVER_assert(0, "function pointer %s is one of the listed targets"), 0)' % name
+            for t in reversed(tg):
+                e = '(%s == %s ? %s(%s) : %s)' % (name, t, t, ', '.join(al), e)
+            return e
         al = []
         if ref['kind'] == 'CXXMethodDecl':
             # static member function called without object: no self
